@@ -243,6 +243,36 @@ def run(c, index, tier):
             m = numpy.asarray(m)
             if m.shape != (d, d) or numpy.any(numpy.isnan(m)) or numpy.any(m < -1e-12) or numpy.any(m > 1 + 1e-9):
                 _viol(c, seen, "range", (nm, model_name, "c-contiguous"), "%s matrix of the C-contiguous copy has a wrong shape, NaN or entries outside [0, 1]" % nm)
+    # ---- a frame that is rejected (an infinite value): the call raises, the
+    #      caller's frame -- values and labels -- stays as it was; once the
+    #      value is repaired the result is labelled as before
+    if not int_table and ch.boolean("f", 0.3, "rejected-frame"):
+        bad = df.copy()
+        i0, j0 = ch.draw("f", n, "bad-row"), ch.draw("f", d, "bad-col")
+        orig = bad.iat[i0, j0]
+        bad.iat[i0, j0] = numpy.inf
+        before = bad.copy()
+        c.ch.play_tape("r", tape)
+        try:
+            okb, rb = call(bad)
+        finally:
+            c.ch.stop_play("r")
+        if not okb:
+            c.faults_fired["invalid:inf-in-frame"] += 1
+        if list(bad.columns) != list(before.columns) or list(bad.index) != list(before.index) or not bad.equals(before):
+            _viol(c, seen, "input-modified", ("frame", "after-rejected-input" if not okb else "after-call"), "a call on a DataFrame holding an infinite value (%s) left the caller's frame changed: columns %r -> %r" % ("rejected" if not okb else "accepted", list(before.columns), list(bad.columns)))
+        else:
+            bad.iat[i0, j0] = orig
+            c.ch.play_tape("r", tape)
+            try:
+                okr, rr = call(bad)
+            finally:
+                c.ch.stop_play("r")
+            if okr:
+                first = rr[0] if minmax else rr
+                if not hasattr(first, "columns") or list(first.columns) != names or list(first.index) != names:
+                    _viol(c, seen, "labels", ("after-rejected-input",), "after a rejected call, the repaired DataFrame gives a matrix that does not keep the variable labels")
+        c.probe("frame_rejected_then_repaired")
     # ---- a failing model: the call raises, the input stays untouched
     if fault and sites:
         site = sites[ch.draw("f", len(sites), "site")]
